@@ -1,6 +1,7 @@
 import ZapVerif.Model.Sugar
 import ZapVerif.Proofs.Sugar
 import ZapVerif.Gen.Callers
+import ZapVerif.Proofs.TransSweeten
 /-! # C14 — SugaredLogger never drops or misattributes loosely-typed arguments
 
 Objects: `sweep`/`sweeten` mirror `sweetenFields`; `loopGo` is the same loop with Go's index expressions checked;
@@ -210,5 +211,310 @@ example : sweeten [.str [107], .int [49], .int [50], .nil, .err [101], .err [102
 
 example : clean [.str [107], .int [49], .int [50], .nil, .err [101], .err [102], .field "Int64" [102] [55], .str [100]] =
     [.str [107], .int [49], .err [101], .field "Int64" [102] [55]] := by decide
+
+end ZapVerif.C14
+
+/-! ## `sweetenFields` IS the source (table `Gen/TransSweeten.lean`)
+
+The loop of sugar.go `(*SugaredLogger).sweetenFields`, translated mechanically, is interpreted on EVERY argument list:
+the arguments are opaque values, and what the three comma-ok type assertions (`.(Field)`, `.(error)`, `.(string)`) answer
+about each is a parameter.  The result is the positional sweep `TransSweeten.sweepV` — the same recursion as
+`Sugar.sweep` (`sweepV_is_sweep`) — and the diagnostics reach the base logger in the model's order.  `cap` is any
+function with `cap s = 0 → s = []`. -/
+namespace ZapVerif.C14
+set_option linter.unusedSimpArgs false
+open ZapVerif ZapVerif.GoMini ZapVerif.TransSweeten ZapVerif.Gen.TransSweeten
+
+theorem sweetenFields_iter_field_matches_source (P : Par) (args : List Val) (skip : Val) (ev0 : List Val) (i : Nat) (seen : Bool) (acc : ResV)
+    (t : Junk) (a f : Val) (hi : (i : Int) + 2 < 9223372036854775808)
+    (hidx : indexVal (.list args) (.int i) = .ok a) (hf : P.asField a = some f)
+    (rec : Stmt → State → GoMini.Out) (k : State → GoMini.Out) :
+    (execS (X P) rec sweetenFields_loop0.lbody (sAbs args skip ev0 i seen acc t)).loopBody
+      (fun σ' => (execS (X P) rec sweetenFields_loop0.lpost σ').loopPost k) =
+      k (sAbs args skip ev0 (i+1) seen ⟨acc.fields ++ [f], acc.diags, acc.invalid⟩ (t.set1 f (.bool true))) := by
+  have hw1 : wrap .int ((i : Int) + 1) = ((i + 1 : Nat) : Int) := by rw [wrap_int_id] <;> omega
+  have he := ext_field_some P a f hf
+  cases t <;>
+    simp [sweetenFields_loop0, Stmt.lbody, Stmt.lpost, sAbs, Junk.env, Junk.set1, hidx, he, hw1]
+
+theorem sweetenFields_iter_err_matches_source (P : Par) (args : List Val) (skip : Val) (ev0 : List Val) (i : Nat) (seen : Bool) (acc : ResV)
+    (t : Junk) (a e : Val) (hi : (i : Int) + 2 < 9223372036854775808)
+    (hidx : indexVal (.list args) (.int i) = .ok a) (hf : P.asField a = none) (he : P.asErr a = some e)
+    (rec : Stmt → State → GoMini.Out) (k : State → GoMini.Out) :
+    (execS (X P) rec sweetenFields_loop0.lbody (sAbs args skip ev0 i seen acc t)).loopBody
+      (fun σ' => (execS (X P) rec sweetenFields_loop0.lpost σ').loopPost k) =
+      k (sAbs args skip ev0 (i+1) true
+          (if seen then ⟨acc.fields, acc.diags ++ [diagV msgMultiple (errF e)], acc.invalid⟩
+           else ⟨acc.fields ++ [errF e], acc.diags, acc.invalid⟩)
+          ((t.set1 (.list []) (.bool false)).set2 e (.bool true))) := by
+  have hw1 : wrap .int ((i : Int) + 1) = ((i + 1 : Nat) : Int) := by rw [wrap_int_id] <;> omega
+  have h1 := ext_field_none P a hf
+  have h2 := ext_err_some P a e he
+  cases seen <;> cases t <;>
+    simp [sweetenFields_loop0, Stmt.lbody, Stmt.lpost, sAbs, Junk.env, Junk.set1, Junk.set2, hidx, h1, h2, hw1,
+      diagV, nm_diag, msgMultiple_eq, List.append_assoc]
+
+theorem sweetenFields_iter_dangling_matches_source (P : Par) (args : List Val) (skip : Val) (ev0 : List Val) (i : Nat) (seen : Bool) (acc : ResV)
+    (t : Junk) (a : Val) (hlen : (args.length : Int) < 9223372036854775808) (hlast : i + 1 = args.length)
+    (hidx : indexVal (.list args) (.int i) = .ok a) (hf : P.asField a = none) (he : P.asErr a = none)
+    (rec : Stmt → State → GoMini.Out) (k : State → GoMini.Out) :
+    (execS (X P) rec sweetenFields_loop0.lbody (sAbs args skip ev0 i seen acc t)).loopBody
+      (fun σ' => (execS (X P) rec sweetenFields_loop0.lpost σ').loopPost k) =
+      .normal (sAbs args skip ev0 i seen ⟨acc.fields, acc.diags ++ [diagV msgOdd (anyF keyIgnored a)], acc.invalid⟩
+          ((t.set1 (.list []) (.bool false)).set2 (.list []) (.bool false))) := by
+  have hwl : wrap .int ((args.length : Int) - 1) = (i : Int) := by rw [wrap_int_id] <;> omega
+  have h1 := ext_field_none P a hf
+  have h2 := ext_err_none P a he
+  cases t <;>
+    simp [sweetenFields_loop0, Stmt.lbody, Stmt.lpost, sAbs, Junk.env, Junk.set1, Junk.set2, hidx, h1, h2, hwl,
+      diagV, nm_diag, msgOdd_eq, keyIgnored_eq, List.append_assoc]
+
+theorem sweetenFields_iter_pair_matches_source (P : Par) (hcap : ∀ l : List Val, P.cap (.list l) = 0 → l = []) (args : List Val) (skip : Val)
+    (ev0 : List Val) (i : Nat) (seen : Bool) (acc : ResV)
+    (t : Junk) (a v : Val) (hlen : (args.length : Int) < 9223372036854775808) (hnl : i + 1 < args.length)
+    (hidx : indexVal (.list args) (.int i) = .ok a) (hidx2 : indexVal (.list args) (.int ((i : Int) + 1)) = .ok v)
+    (hf : P.asField a = none) (he : P.asErr a = none)
+    (rec : Stmt → State → GoMini.Out) (k : State → GoMini.Out) :
+    (execS (X P) rec sweetenFields_loop0.lbody (sAbs args skip ev0 i seen acc t)).loopBody
+      (fun σ' => (execS (X P) rec sweetenFields_loop0.lpost σ').loopPost k) =
+      k (sAbs args skip ev0 (i+2) seen
+          (match P.asStr a with
+           | some s => ⟨acc.fields ++ [anyF s v], acc.diags, acc.invalid⟩
+           | none => ⟨acc.fields, acc.diags, acc.invalid ++ [.list [.int i, a, v]]⟩)
+          (((t.set1 (.list []) (.bool false)).set2 (.list []) (.bool false)).set3 a v
+            (match P.asStr a with | some s => .bytes s | none => .bytes [])
+            (.bool (P.asStr a).isSome))) := by
+  have hwl : wrap .int ((args.length : Int) - 1) = (args.length : Int) - 1 := by rw [wrap_int_id] <;> omega
+  have hw1 : wrap .int ((i : Int) + 1) = (i : Int) + 1 := by rw [wrap_int_id] <;> omega
+  have hw2 : wrap .int ((i : Int) + 2) = (i : Int) + 2 := by rw [wrap_int_id] <;> omega
+  have hne : ¬ ((i : Int) = (args.length : Int) - 1) := by omega
+  have h1 := ext_field_none P a hf
+  have h2 := ext_err_none P a he
+  obtain ⟨fs, ds, inv⟩ := acc
+  cases hs : P.asStr a with
+  | some s =>
+    have h3 := ext_str_some P a s hs
+    cases t <;>
+      simp [sweetenFields_loop0, Stmt.lbody, Stmt.lpost, sAbs, Junk.env, Junk.set1, Junk.set2, Junk.set3, hidx, hidx2, h1, h2,
+        h3, hwl, hw1, hw2, hne, List.append_assoc]
+  | none =>
+    have h3 := ext_str_none P a hs
+    by_cases hc : P.cap (.list inv) = 0
+    · have hinv := hcap inv hc
+      subst hinv
+      cases t <;>
+        simp [sweetenFields_loop0, Stmt.lbody, Stmt.lpost, sAbs, Junk.env, Junk.set1, Junk.set2, Junk.set3, hidx, hidx2, h1, h2,
+          h3, hwl, hw1, hw2, hne, hc, List.append_assoc]
+    · cases t <;>
+        simp [sweetenFields_loop0, Stmt.lbody, Stmt.lpost, sAbs, Junk.env, Junk.set1, Junk.set2, Junk.set3, hidx, hidx2, h1, h2,
+          h3, hwl, hw1, hw2, hne, hc, List.append_assoc]
+
+/-- the whole loop: from position `pre.length` on, it adds exactly `sweepV` of the remaining arguments -/
+theorem sweetenFields_loop_matches_source (P : Par) (hcap : ∀ l : List Val, P.cap (.list l) = 0 → l = []) (args : List Val)
+    (skip : Val) (ev0 : List Val) (hlen : (args.length : Int) + 2 < 9223372036854775808) :
+    ∀ (n : Nat) (pre rest : List Val) (seen : Bool) (acc : ResV) (t : Junk) (fuel : Nat),
+      pre ++ rest = args → rest.length ≤ n →
+      ∃ (i' : Nat) (seen' : Bool) (t' : Junk),
+        execS (X P) (exec (X P) (fuel + n)) sweetenFields_loop0 (sAbs args skip ev0 pre.length seen acc t) =
+          .normal (sAbs args skip ev0 i' seen' (acc.append (sweepV P pre.length seen rest)) t') := by
+  have hL : sweetenFields_loop0 = .loop sweetenFields_loop0.lcond sweetenFields_loop0.lpost sweetenFields_loop0.lbody := rfl
+  have hcond : ∀ (i : Nat) (seen : Bool) (acc : ResV) (t : Junk),
+      evalE (X P) (sAbs args skip ev0 i seen acc t) sweetenFields_loop0.lcond = .ok (.bool (decide ((i : Int) < args.length))) := by
+    intro i seen acc t
+    cases t <;> simp [sweetenFields_loop0, Stmt.lcond, sAbs, Junk.env]
+  intro n
+  induction n with
+  | zero =>
+    intro pre rest seen acc t fuel hargs hn
+    have hr : rest = [] := List.eq_nil_of_length_eq_zero (by omega)
+    subst hr
+    have hpl : pre.length = args.length := by rw [← hargs]; simp
+    refine ⟨pre.length, seen, t, ?_⟩
+    rw [hL, execS_loop, hcond]
+    simp [sweepV, hpl]
+  | succ m ih =>
+    intro pre rest seen acc t fuel hargs hn
+    cases rest with
+    | nil =>
+      have hpl : pre.length = args.length := by rw [← hargs]; simp
+      refine ⟨pre.length, seen, t, ?_⟩
+      rw [hL, execS_loop, hcond]
+      simp [sweepV, hpl]
+    | cons a r =>
+      have hal : args.length = pre.length + (r.length + 1) := by rw [← hargs]; simp
+      have hlt : (pre.length : Int) < args.length := by omega
+      have hi : (pre.length : Int) + 2 < 9223372036854775808 := by omega
+      have hlen' : (args.length : Int) < 9223372036854775808 := by omega
+      have hidx : indexVal (.list args) (.int (pre.length : Int)) = .ok a := by rw [← hargs]; exact indexVal_at pre a r
+      rw [hL, execS_loop, hcond]
+      simp only [hlt, decide_true, Res.out, condK]
+      rw [← hL]
+      have hrec : ∀ σ, exec (X P) (fuel + (m + 1)) sweetenFields_loop0 σ =
+          execS (X P) (exec (X P) (fuel + m)) sweetenFields_loop0 σ := fun σ => by rw [← exec_succ]; rfl
+      cases hf : P.asField a with
+      | some f =>
+        rw [sweetenFields_iter_field_matches_source P args skip ev0 pre.length seen acc t a f hi hidx hf, hrec]
+        have := ih (pre ++ [a]) r seen ⟨acc.fields ++ [f], acc.diags, acc.invalid⟩ (t.set1 f (.bool true)) fuel
+          (by simpa using hargs) (by simp at hn; omega)
+        simpa [sweepV_field P _ _ a f r hf, append_cons1] using this
+      | none =>
+        cases he : P.asErr a with
+        | some e =>
+          rw [sweetenFields_iter_err_matches_source P args skip ev0 pre.length seen acc t a e hi hidx hf he, hrec]
+          have := ih (pre ++ [a]) r true
+            (if seen then ⟨acc.fields, acc.diags ++ [diagV msgMultiple (errF e)], acc.invalid⟩
+             else ⟨acc.fields ++ [errF e], acc.diags, acc.invalid⟩)
+            ((t.set1 (.list []) (.bool false)).set2 e (.bool true)) fuel
+            (by simpa using hargs) (by simp at hn; omega)
+          cases seen <;> simpa [sweepV_err P _ _ a e r hf he, append_cons1, append_cons2] using this
+        | none =>
+          cases r with
+          | nil =>
+            have hlast : pre.length + 1 = args.length := by rw [hal]; simp
+            rw [sweetenFields_iter_dangling_matches_source P args skip ev0 pre.length seen acc t a hlen' hlast hidx hf he]
+            exact ⟨pre.length, seen, (t.set1 (.list []) (.bool false)).set2 (.list []) (.bool false),
+              by simp [sweepV_dangling P _ _ a hf he, ResV.append]⟩
+          | cons v r' =>
+            have hnl : pre.length + 1 < args.length := by rw [hal]; simp
+            have hidx2 : indexVal (.list args) (.int ((pre.length : Int) + 1)) = .ok v := by
+              rw [← hargs]; exact indexVal_at1 pre a v r'
+            rw [sweetenFields_iter_pair_matches_source P hcap args skip ev0 pre.length seen acc t a v hlen' hnl hidx hidx2 hf he, hrec]
+            have := ih (pre ++ [a, v]) r' seen
+              (match P.asStr a with
+               | some s => ⟨acc.fields ++ [anyF s v], acc.diags, acc.invalid⟩
+               | none => ⟨acc.fields, acc.diags, acc.invalid ++ [.list [.int pre.length, a, v]]⟩)
+              (((t.set1 (.list []) (.bool false)).set2 (.list []) (.bool false)).set3 a v
+                (match P.asStr a with | some s => .bytes s | none => .bytes [])
+                (.bool (P.asStr a).isSome)) fuel
+              (by simpa using hargs) (by simp at hn; omega)
+            cases hs : P.asStr a <;> simp only [hs] at this <;>
+              simpa [sweepV_pair P _ _ a v r' hf he, hs, append_cons1, append_cons3] using this
+
+/-- **sweetenFields_matches_source**: for every argument list, every answer of the three type assertions and every
+    `cap`, the interpreted function returns the fields of the positional sweep and sends exactly its diagnostics — the
+    in-loop ones in order, then the invalid pairs as one array — to the base logger. -/
+theorem sweetenFields_matches_source (P : Par) (hcap : ∀ l : List Val, P.cap (.list l) = 0 → l = []) (args : List Val)
+    (skip : Int) (ev : List Val) (hlen : (args.length : Int) + 2 < 9223372036854775808) (fuel : Nat) :
+    run (X P) (fuel + args.length + 1) "sweetenFields" [.list args, .int skip] [("ev", .list ev)] =
+      .done [.list (sweepV P 0 false args).fields] [("ev", .list (ev ++ diagsOf (sweepV P 0 false args)))] := by
+  refine run_of_fin (X P) _ _ Gen.TransSweeten.sweetenFields [.list args, .int skip] _ _ _ rfl rfl ?_
+  show (exec (X P) (fuel + args.length + 1) sweetenFields_body
+    ⟨[("p0", .list args), ("p1", .int skip)], [("ev", .list ev)]⟩).fin = _
+  rw [exec_succ]
+  have hpos : ∀ k : Nat, (0 : Int) < (k : Int) + 1 := by intro k; omega
+  have hne : ∀ k : Nat, ¬ ((k : Int) + 1 = 0) := by intro k; omega
+  cases args with
+  | nil => simp [sweetenFields_body, sweepV, diagsOf]
+  | cons a r =>
+    obtain ⟨i', seen', t', hrun⟩ := sweetenFields_loop_matches_source P hcap (a :: r) (.int skip) ev hlen
+      (a :: r).length [] (a :: r) false {} .j0 fuel rfl (Nat.le_refl _)
+    have hrun' : execS (X P) (exec (X P) (fuel + (r.length + 1))) sweetenFields_loop0
+        ⟨[("p0", .list (a :: r)), ("p1", .int skip), ("l0", .list []), ("l1", .list []), ("l2", .bool false),
+          ("l3", .int 0)], [("ev", .list ev)]⟩ =
+        .normal (sAbs (a :: r) (.int skip) ev i' seen' (sweepV P 0 false (a :: r)) t') := by
+      simpa [sAbs, Junk.env, ResV.append] using hrun
+    generalize sweepV P 0 false (a :: r) = R at *
+    obtain ⟨fs, ds, inv⟩ := R
+    cases inv <;> cases t' <;>
+      simp [sweetenFields_body, hrun', sAbs, Junk.env, diagsOf, diagV, nm_diag, msgNonString_eq, keyInvalid_eq, hpos, hne,
+        List.append_assoc]
+
+/-! ### `sweepV` is `Sugar.sweep`
+
+For ANY encoding of the model's arguments as values on which the three type assertions answer what the constructor of
+the argument says, the sweep over values is the encoding of `Sugar.sweep` — the function `sweeten_partition`,
+`sweeten_order`, `first_error_only` … are about.  `encArg` / `encPar` is one such encoding (so the hypotheses are
+satisfiable), and the three diagnostic messages read from sugar.go are the model's. -/
+section link
+open ZapVerif.Sugar
+
+variable (enc : Arg → Val) (fV : String → Tok → Tok → Val) (eV : Tok → Val)
+
+def outV : Sugar.Out → Val
+  | .passed ty k t => fV ty k t
+  | .any k v => anyF k (enc v)
+  | .error e => errF (eV e)
+
+def ldiagV : LDiag → Val
+  | .multiple e => diagV TransSweeten.msgMultiple (errF (eV e))
+  | .dangling a => diagV TransSweeten.msgOdd (anyF TransSweeten.keyIgnored (enc a))
+
+def invV (p : Inv) : Val := .list [.int p.pos, enc p.key, enc p.val]
+
+def resV (r : Res) : ResV := ⟨r.fields.map (outV enc fV eV), r.diags.map (ldiagV enc eV), r.invalid.map (invV enc)⟩
+
+theorem sweepV_is_sweep (P : Par)
+    (hF : ∀ a, P.asField (enc a) = match a with | .field ty k t => some (fV ty k t) | _ => none)
+    (hE : ∀ a, P.asErr (enc a) = match a with | .err e => some (eV e) | _ => none)
+    (hS : ∀ a, P.asStr (enc a) = match a with | .str s => some s | _ => none) :
+    ∀ (n : Nat) (args : List Arg), args.length ≤ n → ∀ (i : Nat) (seen : Bool),
+      sweepV P i seen (args.map enc) = resV enc fV eV (sweep i seen args) := by
+  intro n
+  induction n with
+  | zero =>
+    intro args h i seen
+    have : args = [] := List.eq_nil_of_length_eq_zero (by omega)
+    subst this; simp [sweepV, sweep, resV]
+  | succ m ih =>
+    intro args h i seen
+    cases args with
+    | nil => simp [sweepV, sweep, resV]
+    | cons a r =>
+      have hr : r.length ≤ m := by simp at h; omega
+      have key : ∀ (hf : P.asField (enc a) = none) (he : P.asErr (enc a) = none)
+          (hsw : ∀ v r', sweep i seen (a :: v :: r') =
+            match a with
+            | .str s => (sweep (i+2) seen r').cons1 (.any s v)
+            | _ => (sweep (i+2) seen r').cons3 ⟨i, a, v⟩)
+          (hsw1 : sweep i seen [a] = { diags := [.dangling a] }),
+          sweepV P i seen ((a :: r).map enc) = resV enc fV eV (sweep i seen (a :: r)) := by
+        intro hf he hsw hsw1
+        cases r with
+        | nil => simp [sweepV_dangling P i seen (enc a) hf he, hsw1, resV, ldiagV]
+        | cons v r' =>
+          have hr' : r'.length ≤ m := by simp at hr; omega
+          rw [List.map_cons, List.map_cons, sweepV_pair P i seen (enc a) (enc v) _ hf he, hsw, ih r' hr', hS a]
+          cases a <;> simp [resV, Res.cons1, Res.cons3, ResV.cons1, ResV.cons3, outV, invV]
+      cases a with
+      | field ty k t =>
+        rw [List.map_cons, sweepV_field P i seen _ (fV ty k t) _ (by rw [hF]), ih r hr]
+        simp [sweep, resV, Res.cons1, ResV.cons1, outV]
+      | err e =>
+        rw [List.map_cons, sweepV_err P i seen _ (eV e) _ (by rw [hF]) (by rw [hE]), ih r hr]
+        cases seen <;> simp [sweep, resV, Res.cons1, Res.cons2, ResV.cons1, ResV.cons2, outV, ldiagV]
+      | str s => exact key (by rw [hF]) (by rw [hE]) (fun _ _ => by simp [sweep]) (by simp [sweep])
+      | int t => exact key (by rw [hF]) (by rw [hE]) (fun _ _ => by simp [sweep]) (by simp [sweep])
+      | nil => exact key (by rw [hF]) (by rw [hE]) (fun _ _ => by simp [sweep]) (by simp [sweep])
+      | val vk t => exact key (by rw [hF]) (by rw [hE]) (fun _ _ => by simp [sweep]) (by simp [sweep])
+
+end link
+
+/-- the three diagnostic messages and the two keys, READ from sugar.go by the translator, are the model's -/
+theorem sweeten_messages_are_model :
+    TransSweeten.msgMultiple = Sugar.msgMultiple ∧ TransSweeten.msgOdd = Sugar.msgOdd ∧
+    TransSweeten.msgNonString = Sugar.msgNonString ∧ TransSweeten.keyIgnored = Sugar.keyIgnored := by
+  decide +kernel
+
+/-- one concrete encoding: a tag, then the payload -/
+def encArg : Sugar.Arg → Val
+  | .field ty k t => .list [.int 0, .bytes ty.toUTF8.toList, .bytes k, .bytes t]
+  | .err t => .list [.int 1, .bytes t]
+  | .str s => .list [.int 2, .bytes s]
+  | .int t => .list [.int 3, .bytes t]
+  | .nil => .list [.int 4]
+  | .val vk t => .list [.int 5, .bytes (toString (repr vk)).toUTF8.toList, .bytes t]
+
+def encPar (cap : Val → Int) : Par :=
+  { asField := fun v => match v with | .list (.int 0 :: _) => some v | _ => none,
+    asErr := fun v => match v with | .list [.int 1, t] => some t | _ => none,
+    asStr := fun v => match v with | .list [.int 2, .bytes s] => some s | _ => none,
+    cap := cap }
+
+/-- the hypotheses of `sweepV_is_sweep` hold for `encArg` / `encPar` -/
+theorem encPar_answers (cap : Val → Int) :
+    (∀ a, (encPar cap).asField (encArg a) = match a with | .field ty k t => some (encArg (.field ty k t)) | _ => none) ∧
+    (∀ a, (encPar cap).asErr (encArg a) = match a with | .err e => some (.bytes e) | _ => none) ∧
+    (∀ a, (encPar cap).asStr (encArg a) = match a with | .str s => some s | _ => none) := by
+  refine ⟨?_, ?_, ?_⟩ <;> intro a <;> cases a <;> rfl
 
 end ZapVerif.C14
